@@ -18,6 +18,18 @@ TLA = os.path.join(VERIF, "tla")
 WORK = os.path.join(VERIF, ".work", str(os.getpid()))
 
 
+def is_vector(obj):
+    """public API only: a Vector has component attributes x, y, z"""
+    return hasattr(obj, "nvec") and hasattr(obj, "x")
+
+
+def comps_of(obj):
+    """components of a Vector as {'x': Array, ...} (public attributes), or {'': obj} for an Array"""
+    if is_vector(obj):
+        return {c: getattr(obj, c) for c in "xyz" if getattr(obj, c, None) is not None}
+    return {"": obj}
+
+
 class MachineryError(Exception):
     pass
 
